@@ -226,7 +226,8 @@ def firewall_actions(fw: str):
     acts = []
     for port in ("internal", "external", "dmz"):
         for direction in ("inbound", "outbound"):
-            for pos in ((1, 24) if (port, direction) == ("internal", "inbound") else (1,)):
+            # position 1 is free, position 10 holds the scenario's permit rule (the add overwrites it), 24 is out of range
+            for pos in ((1, 10, 24) if (port, direction) == ("internal", "inbound") else (1, 10)):
                 acts.append(
                     (
                         "firewall-acl-add-rule",
